@@ -56,11 +56,12 @@ Record im_curves : Type := mkIC {
   ic_Ho : list T; ic_Cvt_im : list T; ic_graded_Cvs_im : list T; ic_graded_Cvt_im : list T }.
 
 (* c[key][i] * Rsd * Cv + il_list[i]  for i in range(max_index) *)
-Fixpoint to_im (p : sparams) (es ils : list T) (n : nat) : list T :=
+Fixpoint to_im_ (rsd cv : T) (es ils : list T) (n : nat) : list T :=
   match n, es, ils with
-  | S n', e :: es', i :: ils' => nadd N (nmul N (nmul N e (Rsd p)) (p_Cv p)) i :: to_im p es' ils' n'
+  | S n', e :: es', i :: ils' => nadd N (nmul N (nmul N e rsd) cv) i :: to_im_ rsd cv es' ils' n'
   | _, _, _ => []
   end.
+Definition to_im (p : sparams) (es ils : list T) (n : nat) : list T := to_im_ (Rsd p) (p_Cv p) es ils n.
 
 Definition generate_im_curves (p : sparams) (c : erhg_curves) : im_curves :=
   let n := p_max_index p in
